@@ -125,6 +125,18 @@ def ensSolveStep (nd : Nested P S X E) : Nat â†’ List (P Ã— MState S) â†’ Nat â†
     if allStopped (ensStep nd ms) = true then (ensStep nd ms, n + 1)
     else ensSolveStep nd fuel (ensStep nd ms) (n + 1)
 
+/-- `_solve(solver, None)` on an EXISTING member (l.769-795 with `x0 = None`): the ensemble's `Solve()` called after ensemble
+`Step`s - `_is_new()` is false, `iv = [None] * n` (l.757), `__init_allSolvers` keeps the members - runs every member's own
+`Solve()` from the state its `Step`s left (`while not stop: stop = self.Step()`, abstract_solver.py l.1130-1133) -/
+def memberContinue (a : Alg S) (fuel : Nat) (m : MState S) : MState S :=
+  { ctl := (solve a fuel m.ctl m.st m.k 0).ctl, st := (solve a fuel m.ctl m.st m.k 0).st,
+    k := (solve a fuel m.ctl m.st m.k 0).iters, msg := (solve a fuel m.ctl m.st m.k 0).msg }
+
+/-- **`n` ensemble `Step`s, then the ensemble's `Solve()`** (mixed mode: a second reduction over the same members, in
+run-to-completion mode) -/
+def ensStepsThenSolve (nd : Nested P S X E) (fuel n : Nat) (ms : List (P Ã— MState S)) : List (P Ã— MState S) :=
+  (ensSteps nd n ms).map fun pm => (pm.1, memberContinue (nd.alg pm.1) fuel pm.2)
+
 end Run
 
 /-! ### Nelder-Mead members -/
@@ -165,6 +177,108 @@ def buckshotEnsembleSolve (nd : Nested (List R) S X E) (fuel : Nat) (c0 : Ctl) (
   | .ok pts => .ok (ensembleSolve nd fuel c0 at_ pts)
 
 end Chain
+
+/-! ### the one-liners `lattice()` / `buckshot()` / `sparsity()` (ensemble.py l.212-339 / l.342-469 / l.472-603):
+from the arguments of the call to the ensemble that is run.  The three bodies are the same text but for the ensemble class
+(and `rtol`, sparsity only):
+```
+gtol = 10
+if 'gtol' in kwds: gtol = kwds['gtol']
+if gtol: termination = NormalizedChangeOverGeneration(ftol,gtol)      # a generation count was given
+else:    termination = VTRChangeOverGeneration(ftol)                   # None / 0: the value-to-reach stop
+solver = <Ensemble>Solver(ndim, nbins|npts[, rtol]); solver.SetNestedSolver(_solver)
+solver.SetEvaluationLimits(maxiter,maxfun) ... SetDistribution / SetPenalty / SetConstraints / SetStrictRanges(minb,maxb,tight,clip)
+solver.Solve(cost, termination=termination, ...)
+```
+and `Solve` pushes the ensemble's settings into every member (`__get_solver_instance`, Model/Ensemble `initSlots`). -/
+section Oneliner
+variable {R C : Type}
+
+/-- the `gtol` keyword as Python sees it: not given, given as `None`, given as an integer -/
+inductive GTol where
+  | absent
+  | none
+  | int (n : Int)
+  deriving DecidableEq, Repr
+
+/-- `gtol = 10; if 'gtol' in kwds: gtol = kwds['gtol']` -/
+def GTol.value : GTol â†’ Option Int
+  | .absent => some 10
+  | .none => Option.none
+  | .int n => some n
+
+/-- `if gtol:` - `None` and `0` are falsy -/
+def GTol.truthy (g : GTol) : Bool :=
+  match g.value with
+  | some n => n != 0
+  | Option.none => false
+
+/-- the constants of mystic/termination.py the one-liners rely on: `eta = 1e-20` of NormalizedChangeOverGeneration (l.224),
+the defaults `gtol=1e-6, generations=30, target=0.0` of VTRChangeOverGeneration (l.320) -/
+structure TermConsts (R : Type) where
+  eta : R
+  vgtol : R
+  vtarget : R
+
+/-- the termination the one-liner hands to `Solve` -/
+def onelinerTerm (k : TermConsts R) (ftol : R) (g : GTol) : Term.Prim R :=
+  if g.truthy = true then .ncog ftol g.value k.eta else .vtrcog ftol k.vgtol (some 30) k.vtarget
+
+inductive OKind where
+  | lattice | buckshot | sparsity
+  deriving DecidableEq, Repr
+
+/-- the arguments of a one-liner call that configure the ensemble (`ftol`: the signature's default 1e-4 already applied) -/
+structure Kw (R C : Type) where
+  first : Count                                   -- `nbins` (tuple / integer) or `npts`; the signature's default is 8
+  ftol : R
+  gtol : GTol
+  maxiter : Option Nat
+  maxfun : Option Nat
+  bounds : Option (List R Ã— List R)               -- `unpair(bounds)`
+  tight : Option Bool                             -- `tightrange` (absent = None)
+  clip : Option Bool                              -- `cliprange`
+  constraints : Option C
+  penalty : Option C
+  dist : Option C
+  rtol : Option R                                 -- sparsity only (absent = None)
+  id : Option Nat
+
+/-- a setting of a member solver, as `__get_solver_instance` pushes it -/
+inductive OSet (R C : Type) where
+  | ranges (r : Option (List R Ã— List R Ã— Option Bool Ã— Option Bool))
+  | limits (maxiter maxfun : Option Nat)
+  | term (t : Term.Prim R)
+  | fn (f : Option C)
+  | unset                                         -- reducer / objective: not configured by the keywords modelled here
+
+/-- the ensemble a one-liner builds: its own settings and the configuration its members inherit -/
+structure OneEns (R C : Type) where
+  kind : OKind
+  count : Count
+  rtol : Option R
+  dist : Option C
+  at_ : Nat                                       -- `solver.id = int(kwds['id'])`; members get `id = i + at`
+  cfg : Cfg (OSet R C)
+
+def oneliner (k : TermConsts R) (kind : OKind) (kw : Kw R C) : OneEns R C :=
+  { kind := kind, count := kw.first
+    rtol := match kind with | .sparsity => kw.rtol | _ => none
+    dist := kw.dist
+    at_ := kw.id.getD 0
+    cfg := { ranges := .ranges (kw.bounds.map fun b => (b.1, b.2, kw.tight, kw.clip))
+             limits := .limits kw.maxiter kw.maxfun
+             termination := .term (onelinerTerm k kw.ftol kw.gtol)
+             constraints := .fn kw.constraints
+             penalty := .fn kw.penalty
+             reducer := .unset
+             objective := .unset } }
+
+/-- the members of the ensemble the one-liner solves: `memberCount` fresh copies of the configured nested solver -/
+def onelinerMembers (k : TermConsts R) (kind : OKind) (kw : Kw R C) : Option (List (Slot (OSet R C))) :=
+  (memberCount kw.first).map fun n => initSlots (oneliner k kind kw).cfg (oneliner k kind kw).at_ 0 (List.replicate n none)
+
+end Oneliner
 
 /-! ### `fillpts` (mystic/math/grid.py l.61-121, `dist=None`): the deterministic contract around the optimisation runs -/
 section Fill
